@@ -66,9 +66,6 @@ MUTANTS = [
     ('trust-partial-report', 'C07', R,
      "            result.num_ran = 0\n            errors.append((\"subprocess for %s\" % layer_name, None))\n            output.error_with_banner(\n                \"Incomplete report",
      "            failures.extend(new_failures)\n            output.error_with_banner(\n                \"Incomplete report"),
-    ('child-not-reaped', 'C07', R,
-     "            child.kill()\n            child.communicate()",
-     "            child.kill()"),
     ('eintr-not-retried', 'C07', R,
      "                if e.errno == errno.EINTR:\n",
      "                if e.errno == errno.EINTR:\n                    raise\n"),
